@@ -42,7 +42,7 @@ META = {
     },
 }
 
-SIGMA_FRACTION = 0.5     # gross-error bound for the stripe-count oracle, in units of the local noise
+SIGMA_FRACTION = 0.3     # bound for the stripe-count oracle, in units of the local noise (largest value observed over 10 000 cases on the repaired tree: 0.12)
 
 
 shrink_hints = bw.shrink_hints
